@@ -1,6 +1,6 @@
 import Sftp.Model.ClientArith
 /-
-  Lemmas for Props/C20Arith: wrap-around arithmetic of the worker-count shapes, the static index check of
+  Lemmas for Props/C20Workers, C08RecvErrPath, C12ReadChunk: wrap-around arithmetic of the worker-count shapes, the static index check of
   recvPacket's error path, the invariant of readChunkAt's refill loop.
 -/
 namespace Sftp.Arith
